@@ -20,4 +20,6 @@ theorem gen_snapRefused (r : List Nat) :
 
 theorem gen_saveSnapshot_order : Gen.saveSnapshotOrder = Order.saveSnapshot := by decide
 
+theorem gen_loadSnapshot_order : Gen.loadSnapshotOrder = Order.loadSnapshot := by decide
+
 end Orbit
